@@ -1,7 +1,7 @@
 (* Calibration sketch (round 0): ldap_escape / ldap_unescape (src/util.rs) and inertness inside a filter (C09). *)
 From Coq Require Import List NArith Lia Bool Arith.
 From Coq.Strings Require Import Byte.
-From L3 Require Import Ber Filter FilterSpec.
+From L3 Require Import Ber Utf8 Filter FilterSpec.
 Import ListNotations.
 Open Scope N_scope.
 
@@ -36,6 +36,24 @@ Theorem c09_filter_inert_eq a v : AttrDesc a ->
   parse ("("%byte :: (a ++ "="%byte :: esc_all v) ++ [")"%byte]) = Some (ber_item (IEq a v)).
 Proof. intros Ha. apply (c08_complete_modulo_F14 (FItem (IEq a v))); [|cbn; tauto].
   apply D_filter, FS_Item, S_Eq; [assumption|apply escape_is_ValEnc]. Qed.
+(* ... in the ordering and approximate-match positions ... *)
+Theorem c09_filter_inert_ge a v : AttrDesc a ->
+  parse ("("%byte :: (a ++ ">"%byte :: "="%byte :: esc_all v) ++ [")"%byte]) = Some (ber_item (IGe a v)).
+Proof. intros Ha. apply (c08_complete_modulo_F14 (FItem (IGe a v))); [|cbn; tauto].
+  apply D_filter, FS_Item, S_Ge; [assumption|apply escape_is_ValEnc]. Qed.
+Theorem c09_filter_inert_le a v : AttrDesc a ->
+  parse ("("%byte :: (a ++ "<"%byte :: "="%byte :: esc_all v) ++ [")"%byte]) = Some (ber_item (ILe a v)).
+Proof. intros Ha. apply (c08_complete_modulo_F14 (FItem (ILe a v))); [|cbn; tauto].
+  apply D_filter, FS_Item, S_Le; [assumption|apply escape_is_ValEnc]. Qed.
+Theorem c09_filter_inert_approx a v : AttrDesc a ->
+  parse ("("%byte :: (a ++ "~"%byte :: "="%byte :: esc_all v) ++ [")"%byte]) = Some (ber_item (IApprox a v)).
+Proof. intros Ha. apply (c08_complete_modulo_F14 (FItem (IApprox a v))); [|cbn; tauto].
+  apply D_filter, FS_Item, S_Approx; [assumption|apply escape_is_ValEnc]. Qed.
+(* ... and as the value of an extensible match (attribute form, no rule, with or without the dn flag) *)
+Theorem c09_filter_inert_ext a dn v : AttrDesc a ->
+  parse ("("%byte :: (a ++ dnstr dn ++ [] ++ ":"%byte :: "="%byte :: esc_all v) ++ [")"%byte]) = Some (ber_item (IExt None (Some a) dn v)).
+Proof. intros Ha. apply (c08_complete_modulo_F14 (FItem (IExt None (Some a) dn v))); [|cbn; tauto].
+  apply D_filter, FS_Item. apply (S_ExtA a dn None v (esc_all v)); [assumption|exact I|apply escape_is_ValEnc]. Qed.
 (* ... and as the initial / any / final component of a substring filter (value non-empty there) *)
 Theorem c09_filter_inert_sub a x y z : AttrDesc a -> x <> [] -> y <> [] -> z <> [] ->
   parse ("("%byte :: (a ++ "="%byte :: esc_all x ++ starred ([esc_all y] ++ [esc_all z])) ++ [")"%byte])
@@ -62,5 +80,13 @@ Proof. induction v as [|c v IH]; intros acc; cbn [esc_all feed_all]; [now rewrit
   - destruct (xdigits_ok _ E) as (H1 & H2 & H3). cbn [feed_all]. change (beq "\" "\")%byte with true. cbn match.
     rewrite H1, H2, <- H3, byte_of_bN, IH, <- app_assoc. reflexivity.
   - cbn [feed_all]. rewrite (needs_escape_bs _ E), IH, <- app_assoc. reflexivity. Qed.
+(* ldap_unescape as a whole: Err unless the automaton ends in a value state and the bytes are UTF-8 *)
+Definition ldap_unescape (i : list byte) : option (list byte) :=
+  let (st, acc) := feed_all Value [] i in
+  match st with Value => if Utf8.valid acc then Some acc else None | _ => None end.
+Theorem c09_unescape_escape_str v : Utf8.valid v = true -> ldap_unescape (esc_all v) = Some v.
+Proof. intros H. unfold ldap_unescape. rewrite (c09_unescape_escape v []). cbn [app]. now rewrite H. Qed.
+Theorem c09_plain_unchanged v : existsb needs_escape v = false -> ldap_escape v = (true, v).
+Proof. intros H. unfold ldap_escape. now rewrite H, (escape_plain_unchanged v H). Qed.
 Print Assumptions c09_filter_inert_eq.
 Print Assumptions c09_unescape_escape.
